@@ -144,6 +144,8 @@ var stmtFuncs = []string{
 	"Mux.serveHTTP", "Mux.serveGRPC", "streamHTTP.RecvMsg", "streamHTTP.SendHeader", "streamGRPC.SendHeader", "streamWS.RecvMsg", "streamWS.SendMsg",
 	"muxOptions.unary", "muxOptions.stream", "inPayload", "outPayload", "isStreamError",
 	"HTTPHandlerOption", "MuxHandleOption", "NewServer", "Mux.ServeHTTP",
+	"variable.index", "path.search", "path.match", "CodecProto.ReadNext", "CodecJSON.ReadNext", "codecHTTPBody.ReadNext", "params.set",
+	"Mux.serveGRPCWeb", "decodeTimeout", "lexPath",
 }
 
 // writerOrder: the order of lock / load / modify / store / unlock in a writer function
